@@ -101,7 +101,11 @@ fn run_n<const N: usize>(cfg: &Cfg, src: &mut dyn Source, hard_cap: usize, recor
     }
 }
 
+/// Bumped at the start of every execution; the worker's watchdog reads it.
+pub static HEARTBEAT: std::sync::atomic::AtomicU64 = std::sync::atomic::AtomicU64::new(0);
+
 pub fn run(cfg: &Cfg, src: &mut dyn Source, hard_cap: usize, record: bool) -> RunOut {
+    HEARTBEAT.fetch_add(1, std::sync::atomic::Ordering::Relaxed);
     match cfg.n {
         1 => run_n::<1>(cfg, src, hard_cap, record),
         2 => run_n::<2>(cfg, src, hard_cap, record),
